@@ -1,6 +1,7 @@
 //! Conformance harness for minidump-writer: shared pieces of `mdw-drive` and `mdw-target`.
 pub mod dirops;
 pub mod dumprun;
+pub mod flood;
 pub mod imgops;
 pub mod maps;
 pub mod mdparse;
